@@ -28,6 +28,11 @@ package transport
 
 //@ func (*Telnet).handleControlChars [C15]
 //@   loop 1 invariant WF(ctrlBuf)
+// how long the negotiation phase waits for the next byte: a fixed fraction of the socket timeout for the first byte, twice
+// that for every later one - never a value that shrinks from byte to byte (the phase would end in the middle of the
+// server's opening and the rest of the negotiation would reach the reader)
+//@   loop 1 invariant #the-wait-is-a-fixed-fraction-of-the-socket-timeout d == a.TimeoutSocket / 4 || d == a.TimeoutSocket / 4 * 2
+//@   at call! Add#1 assert #every-negotiation-read-waits-a-fixed-fraction-of-the-socket-timeout arg0 == a.TimeoutSocket / 4 || arg0 == a.TimeoutSocket / 4 * 2
 
 //@ func (*Telnet).Read [C15 C16]
 //@   modifies t.initialBuf, lastRead
